@@ -1,2 +1,3 @@
+pub mod c05;
 pub mod c14;
 pub mod c15;
